@@ -78,8 +78,14 @@ VALUE_MAPS = {
 
 
 def real(v):
+    """the real scalar standing for abstract value v - a FRESH object every time (equal values must not be identical objects by accident)"""
     if VALUE_MAP and isinstance(v, int) and not isinstance(v, bool):
-        return VALUE_MAP.get(v, v)
+        r = VALUE_MAP.get(v, v)
+        if isinstance(r, float):
+            return float.fromhex(r.hex())
+        if isinstance(r, int) and abs(r) > 1000:
+            return int(str(r))
+        return r
     return v
 
 
